@@ -175,6 +175,60 @@ Definition changeTimelineTimescale (oldTS newTS : Z) (stl : list sentry) : list 
   map (fun s => {| se_t := option_map (scale_round oldTS newTS) (se_t s);
                    se_d := scale_round oldTS newTS (se_d s); se_r := se_r s |}) stl.
 
+(** *** changeTimelineTimescale after the repair C12-timeline-timescale-boundaries: every segment
+    boundary is converted on its own, the durations are the differences, equal durations are
+    run-length compressed. The correspondence uses this variant when the source has it. *)
+(** timeline as segments: (reset, start, duration); reset = the S element carries t *)
+Definition tseg := (bool * Z * Z)%type.
+
+Fixpoint reps (n : nat) (first : bool) (t d : Z) : list tseg :=
+  match n with O => [] | S k => (first, t, d) :: reps k false (t + d) d end.
+
+Fixpoint segments_from (first : bool) (t : Z) (l : list sentry) : list tseg :=
+  match l with
+  | [] => []
+  | s :: rest =>
+    let fl := match se_t s with Some _ => true | None => first end in
+    let t0 := match se_t s with Some x => x | None => t end in
+    let n := Z.to_nat (se_r s + 1) in
+    reps n fl t0 (se_d s) ++
+    segments_from (match n with O => fl | _ => false end) (t0 + Z.of_nat n * se_d s) rest
+  end.
+
+Definition conv (sc : Z -> Z) (x : tseg) : tseg :=
+  let '(b, t, d) := x in (b, sc t, sc (t + d) - sc t).
+
+Fixpoint rle (segs : list tseg) : list sentry :=
+  match segs with
+  | [] => []
+  | (b, st, D) :: rest =>
+    let T := if b then Some st else None in
+    let tail := rle rest in   (* evaluated once *)
+    match tail with
+    | {| se_t := None; se_d := D'; se_r := r |} :: more =>
+      if D' =? D then {| se_t := T; se_d := D; se_r := r + 1 |} :: more
+      else {| se_t := T; se_d := D; se_r := 0 |} :: tail
+    | other => {| se_t := T; se_d := D; se_r := 0 |} :: other
+    end
+  end.
+
+Definition changeTimelineTimescaleB (oldTS newTS : Z) (stl : list sentry) : list sentry :=
+  rle (map (conv (scale_round oldTS newTS)) (segments_from true 0 stl)).
+
+(** reading a timeline: the (start, duration) of every listed segment *)
+Fixpoint runs (n : nat) (t d : Z) : list (Z * Z) :=
+  match n with O => [] | S k => (t, d) :: runs k (t + d) d end.
+
+Fixpoint expand (t : Z) (l : list sentry) : list (Z * Z) :=
+  match l with
+  | [] => []
+  | s :: rest =>
+    let t0 := match se_t s with Some x => x | None => t end in
+    let n := Z.to_nat (se_r s + 1) in
+    runs n t0 (se_d s) ++ expand (t0 + Z.of_nat n * se_d s) rest
+  end.
+
+
 (** st.Duration = *vST.Duration * 1000 / vST.GetTimescale() (uint32 arithmetic) *)
 Definition subs_template_duration (vdur vts : Z) : res Z :=
   if vts =? 0 then Panic "app.addTimeSubs:integer divide by zero" else Ok (u32 (vdur * 1000) / vts).
